@@ -51,6 +51,7 @@ fn check_preorder<const N: usize>(ids: &[Ty; N], r: &[[bool; N]; N]) {
 
 const S_SEQ: [Ty; 10] = [T_NEVER, T_INT, T_ANY, T_U_INT_FLOAT, T_U_INT_FLOAT_STR, T_ARR_INT, T_ARR_U_INT_FLOAT, T_U_ARRS, T_ARR_ANY, T_ARR_NEVER];
 const S_PROD: [Ty; 10] = [T_TUP_INT_INT, T_TUP_ANY_INT, T_TUP_U_INT, T_U_TUPS, T_TUP1_INT, T_ST_A_INT, T_ST_AB, T_ST_A_U, T_U_STRUCTS, T_ST_AB_ANY];
+const S_MIX: [Ty; 10] = [T_U_INT_ARR_INT, T_U_ARRS, T_ARR_ARR_INT, T_ITER_INT, T_TUP_BOOL_INT, T_ST_A_ANY, T_MUT_ARR_INT, T_U_MUT_INT_MUT_U, T_ARR_U_INT_STR, T_FUN_U_U];
 const S_FUN: [Ty; 10] = [T_FUN_INT_FLOAT, T_FUN_ANY_INT, T_FUN0_INT, T_FUN_U_INT, T_FUN_INT_U, T_FUN_U_U, T_U_FUNS, T_MUT_INT, T_MUT_U_INT_FLOAT, T_U_MUTS];
 
 macro_rules! preorder {
@@ -73,6 +74,9 @@ preorder!(preorder_prod_o0, S_PROD, 0);
 preorder!(preorder_prod_o1, S_PROD, 1);
 preorder!(preorder_fun_o0, S_FUN, 0);
 preorder!(preorder_fun_o1, S_FUN, 1);
+// a fourth universe mixing the constructors (added in round three, thorough tier)
+#[cfg(feature = "verif_thorough")]
+preorder!(preorder_mix_o0, S_MIX, 0);
 
 fn m(a: Ty, b: Ty) -> bool {
     real(a).matches(&real(b))
